@@ -10,8 +10,52 @@ from lib.core import Ctx, run_check
 from checks import hedge_common
 
 
+def inplace_first_operation(ctx: Ctx) -> None:
+    """A user model whose first operation works in place on its input, fed by ONE feature that reads a simulated buffer: the
+    two evaluation modes must still agree (and the all-steps mode must not hand the model the buffer itself)."""
+    import torch
+    from pfhedge.instruments import BrownianStock, EuropeanOption, HestonStock
+    from pfhedge.nn import EntropicRiskMeasure, Hedger
+
+    class InPlaceFirst(torch.nn.Module):          # reads column 0 only, so an extra zero-weighted prev_hedge column changes nothing
+        def forward(self, x):
+            x = x[..., :1]
+            x.clamp_(min=0.75, max=1.5)
+            return x - 0.5
+
+    spot = torch.tensor([[1.0, 1.25, 0.5, 2.0], [1.0, 0.625, 1.75, 1.0], [1.0, 1.5, 1.5, 0.25]], dtype=torch.float64)
+    var = torch.tensor([[0.25, 1.0, 0.5, 2.0], [0.25, 0.125, 1.75, 1.0], [0.25, 1.5, 0.0625, 0.25]], dtype=torch.float64)
+
+    def market(feature: str):
+        if feature == "variance":
+            ul = HestonStock(dt=0.25, cost=1e-3, dtype=torch.float64)
+            ul.register_buffer("spot", spot.clone()); ul.register_buffer("variance", var.clone())
+        else:
+            ul = BrownianStock(dt=0.25, cost=1e-3, dtype=torch.float64)
+            ul.register_buffer("spot", spot.clone())
+        return EuropeanOption(ul, maturity=0.75)
+
+    for feature in ("underlier_spot", "variance"):
+        d_all, d_step = market(feature), market(feature)
+        h_all = Hedger(InPlaceFirst(), [feature], criterion=EntropicRiskMeasure())
+        h_step = Hedger(InPlaceFirst(), [feature, "prev_hedge"], criterion=EntropicRiskMeasure())
+        with torch.no_grad():
+            a = {"hedge": h_all.compute_hedge(d_all), "P&L": h_all.compute_pl(d_all), "loss": h_all.criterion(h_all.compute_pl(d_all))}
+            b = {"hedge": h_step.compute_hedge(d_step), "P&L": h_step.compute_pl(d_step), "loss": h_step.criterion(h_step.compute_pl(d_step))}
+        ctx.count(n=3)
+        for k in a:
+            if not torch.equal(a[k], b[k]):
+                ctx.violation(f"hedger:inplace-model:{k}", f"{k} of a hedger with one buffer-reading input ({feature}) and a model working in place differs between the all-steps and the step-by-step evaluation",
+                              {"feature": feature, "all_steps": a[k].flatten().tolist()[:6], "stepwise": b[k].flatten().tolist()[:6]})
+                break
+        buf = d_all.ul().spot if feature == "underlier_spot" else d_all.ul().variance
+        if not torch.equal(buf, spot if feature == "underlier_spot" else var):
+            ctx.violation("hedger:inplace-model:buffer", f"the all-steps evaluation handed the model the simulated {feature} buffer itself: it was overwritten", {"feature": feature})
+
+
 def check(ctx: Ctx) -> None:
     hedge_common.replay_hedger(ctx, focus="C03")
+    inplace_first_operation(ctx)
     hedge_common.c03_selftest(ctx)
     ctx.rule = ("every (path, configuration) state of Hedge.tla's bounded model; replayed per configuration with all "
                 "paths stacked as one batch; distinct = distinct emitted (path, configuration) record")
